@@ -23,6 +23,13 @@ def check_program(L: harness.Loaded, prog: Dict[str, Any], part: Part) -> None:
     tag = tagkey(prog)
     if any(p["t"] == "NRC-CONST" for p in prog["params"]):
         return  # NRC-CONST values cannot be set by design; such PDUs are not 'described by value-carrying parameters' only
+    if prog["tags"][0] == "compu":
+        # the property demands the identity only where the conversion is injective
+        from odxmodel import refcompu as RC
+        d = prog["dops"][0]
+        if not RC.is_injective(d["cm"], d["dct"]["base"], d["phys"]):
+            part.count("non_injective_compu_methods_skipped")
+            return
     done = set()
     for values in prog["assign"]:
         try:
@@ -80,7 +87,7 @@ unit_fn = make_unit_fn(PROPERTY, check_program)
 
 
 def run(ctx: Ctx) -> None:
-    units = space.layer_a_units(ctx.quick) + space.layer_c_units(ctx.quick)
+    units = space.layer_a_units(ctx.quick) + space.layer_b_units(ctx.quick) + space.layer_c_units(ctx.quick)
     ctx.bounds = {"layers": "A + C", "units": len(units), "all_values_upto_bits": 8 if ctx.quick else 12}
     ctx.rule = "every distinct reference-built PDU of every program; non-trivial = distinct (program tags, PDU)"
     ctx.assumptions = ["PDUs are canonical by construction (reference encoder)", "programs with NRC-CONST parameters are excluded (not settable by design)",
